@@ -155,6 +155,7 @@ type frame struct {
 	localTypes map[string]types.Type
 	lenient    map[string]Value
 	curPos     token.Pos // source position of the site whose clause is being evaluated
+	parent     *frame    // the frame into which this one is inlined (closures called in place)
 }
 
 type namedDef struct {
